@@ -19,6 +19,11 @@ import CLModel.Proofs.C15Text
 import CLModel.Proofs.C15Newest
 import CLModel.Proofs.C15RProps
 import CLModel.Proofs.C15RIni
+import CLModel.Proofs.C15Total
+import CLModel.Proofs.C15Dup
+import CLModel.Proofs.C20Dup
+import CLModel.Proofs.C15RDtd
+import CLModel.Proofs.C15Comment
 namespace C15
 open Merge AR
 
@@ -213,13 +218,15 @@ theorem merge_single (f : P.Fmt) (s : Array Nat) (es : List P.Entry) (ents : Lis
   rw [this, ← List.map_map, List.zipIdx_map_fst]
 
 /-- Merging n+1 identical versions returns the text.  Besides the hypotheses of `merge_single`: the version is
-    junk-free (`hj`, as the property states: every Junk object has its own key, so junk is repeated) and no two
-    neighbouring entries are both Whitespace (`ha`; the parsers match whitespace greedily; monitored by the harness). -/
+    junk-free (`hj`, as the property states: every Junk object has its own key, so junk is repeated).
+    (Round 4: the former hypothesis `NoAdjWs ents` — no two neighbouring Whitespace entries — is now PROVED for the
+    parser models, `walk_no_adjacent_whitespace`.) -/
 theorem merge_identical (f : P.Fmt) (s : Array Nat) (es : List P.Entry) (ents : List Ent) (n : Nat)
     (hw : P.walk f s = .done es) (he : toEnts f s 0 es.zipIdx = .ok ents)
-    (hj : ∀ e ∈ es, e.kind ≠ .junk) (hk : NodupKeys ents) (ha : NoAdjWs ents)
+    (hj : ∀ e ∈ es, e.kind ≠ .junk) (hk : NodupKeys ents)
     (hl : (es.map (P.Entry.all s)).flatten = s.toList) :
     mergeTexts f (List.replicate (n + 1) s) = .ok s.toList := by
+  have ha : NoAdjWs ents := C15W.walk_noAdjWs f s es ents 0 hw he
   obtain ⟨vs, hvs, hall⟩ := walkAll_replicate f s es ents hw he hj (n + 1) 0
   obtain ⟨d, hd, hser⟩ := mergeResources_identical ents n hk ha
   rw [mergeTexts, hvs]
@@ -297,6 +304,199 @@ theorem merge_reparses_ini_partial (sec : List Nat) (vers : List (List P.PRec)) 
       (fun i es hi hk e hmem hkeyed hfirst => newest_text _ d hd i es hi hk e hmem hkeyed hfirst)
     exact ⟨t, es, _, ht, hw, he, hj, h1, h2, h3⟩
 
+
+
+/-- RE-PARSE, DTD, printed safe records (round 4).  Every version `<!ENTITY key "value">⏎` per record
+    (`C02X.printDtd`, the class of `C02.roundtrip_dtd_partial`), distinct keys per version.  Then `merge_channels` succeeds,
+    the merged text is ITSELF a printed file `printDtd recs` (the merged dict alternates strictly entity / one-newline
+    white-space: `C15S.merged_strict` — `Alt` + "prune never leaves two neighbouring white-space entries" + "the merge
+    starts with an entity when every version does"), hence `DTDParser.walk` parses it WITHOUT JUNK into exactly one entity
+    per record of `recs`; `recs` has every key once, a key iff some version has it, and the record of the newest version
+    having the key.  FULL statement (not proved): comments, blank lines, other layouts, `&`/`"` in values; the ORDER of
+    `recs` (it is the dict order of `order_spec`). -/
+theorem merge_reparses_dtd_partial (vers : List (List P.PRec)) (hne : vers ≠ [])
+    (hsafe : ∀ rs ∈ vers, ∀ r ∈ rs, C02X.SafeDtdRec r) (hnd : ∀ rs ∈ vers, (rs.map (·.1)).Nodup) :
+    ∃ (t : List Nat) (es : List P.Entry) (recs : List P.PRec),
+      mergeTexts .dtd (vers.map (fun rs => (C02X.printDtd rs).toArray)) = .ok t ∧
+      t = C02X.printDtd recs ∧
+      P.walk .dtd t.toArray = .done es ∧
+      P.entitiesOf .dtd t.toArray es = recs.map P.expectedView ∧
+      P.junkOf t.toArray es = [] ∧
+      (recs.map (·.1)).Nodup ∧
+      (∀ k, k ∈ recs.map (·.1) ↔ ∃ rs ∈ vers, k ∈ rs.map (·.1)) ∧
+      (∀ (i : Nat) (rs : List P.PRec) (r : P.PRec), vers[i]? = some rs → r ∈ rs →
+        (∀ j < i, ∀ rs' : List P.PRec, vers[j]? = some rs' → r.1 ∉ rs'.map (·.1)) → r ∈ recs) := by
+  cases vers with
+  | nil => exact absurd rfl hne
+  | cons v vs =>
+    obtain ⟨d, hd⟩ := C15S.merge_some C15S.dtdL v vs
+    have hwa := C15S.walkAll_gen C15S.dtdL .dtd C02X.printDtd C02X.SafeDtdRec C15S.walkEnts_dtd_printed (v :: vs) 0 hsafe
+    obtain ⟨recs, hser, hsr, h1, h2, h3⟩ := C15S.merged_printed C15S.dtdL C15S.dtdL_val C02X.SafeDtdRec (v :: vs) d hd
+      hsafe hnd (fun ek => merged_entity_keys _ d hd ek)
+      (fun i es hi hk e hmem hkeyed hfirst => newest_text _ d hd i es hi hk e hmem hkeyed hfirst)
+    rw [C15S.printL_dtd] at hser
+    obtain ⟨he1, he2⟩ := C02X.entitiesOf_dtdExpEntries (C02X.printDtd recs).toArray recs 0 (by simp) hsr
+    refine ⟨C02X.printDtd recs, _, recs, ?_, rfl, C02X.walk_dtd_printed recs hsr, he1, he2, h1, h2, h3⟩
+    unfold mergeTexts
+    rw [hwa]
+    simp only [hd, hser]
+
+/-- RE-PARSE, .inc, printed safe records (round 4).  Every version `#define key value⏎` (`#define key⏎` for an empty
+    value) per record (`C02X.printInc`, the class of `C02.roundtrip_inc_partial`), distinct keys per version.  Same
+    conclusion as for DTD: the merged text is the printed file of `recs` and `DefinesParser.walk` parses it without junk.
+    The strict alternation matters here: outside `#filter emptyLines` a blank line (two neighbouring newlines) or a leading
+    newline IS Junk for `DefinesParser` (witnesses below), and `prune` / the head lemma exclude both.
+    FULL statement (not proved): comments, `#filter emptyLines` blocks, other instructions. -/
+theorem merge_reparses_inc_partial (vers : List (List P.PRec)) (hne : vers ≠ [])
+    (hsafe : ∀ rs ∈ vers, ∀ r ∈ rs, C02X.SafeIncRec r) (hnd : ∀ rs ∈ vers, (rs.map (·.1)).Nodup) :
+    ∃ (t : List Nat) (es : List P.Entry) (recs : List P.PRec),
+      mergeTexts .inc (vers.map (fun rs => (C02X.printInc rs).toArray)) = .ok t ∧
+      t = C02X.printInc recs ∧
+      P.walk .inc t.toArray = .done es ∧
+      P.entitiesOf .inc t.toArray es = recs.map P.expectedView ∧
+      P.junkOf t.toArray es = [] ∧
+      (recs.map (·.1)).Nodup ∧
+      (∀ k, k ∈ recs.map (·.1) ↔ ∃ rs ∈ vers, k ∈ rs.map (·.1)) ∧
+      (∀ (i : Nat) (rs : List P.PRec) (r : P.PRec), vers[i]? = some rs → r ∈ rs →
+        (∀ j < i, ∀ rs' : List P.PRec, vers[j]? = some rs' → r.1 ∉ rs'.map (·.1)) → r ∈ recs) := by
+  cases vers with
+  | nil => exact absurd rfl hne
+  | cons v vs =>
+    obtain ⟨d, hd⟩ := C15S.merge_some C15S.incL v vs
+    have hwa := C15S.walkAll_gen C15S.incL .inc C02X.printInc C02X.SafeIncRec C15S.walkEnts_inc_printed (v :: vs) 0 hsafe
+    obtain ⟨recs, hser, hsr, h1, h2, h3⟩ := C15S.merged_printed C15S.incL C15S.incL_val C02X.SafeIncRec (v :: vs) d hd
+      hsafe hnd (fun ek => merged_entity_keys _ d hd ek)
+      (fun i es hi hk e hmem hkeyed hfirst => newest_text _ d hd i es hi hk e hmem hkeyed hfirst)
+    rw [C15S.printL_inc] at hser
+    obtain ⟨he1, he2⟩ := C02X.entitiesOf_incExpEntries (C02X.printInc recs).toArray recs 0 (by simp)
+    refine ⟨C02X.printInc recs, _, recs, ?_, rfl, C02X.walk_inc_printed recs hsr, he1, he2, h1, h2, h3⟩
+    unfold mergeTexts
+    rw [hwa]
+    simp only [hd, hser]
+
+/-- the entry-level core of both (any parser): when every version's dict alternates strictly "entry, white-space, …",
+    so does the merged dict -/
+theorem merged_strict_shape (rs : List (List Ent)) (d : Dict) (h : mergeResources rs = some d)
+    (hall : ∀ dv ∈ versionDicts rs, C15S.Strict dv) : C15S.Strict d :=
+  C15S.merged_strict rs d h hall
+
+/-! ### Round 4: hypotheses discharged by the parser models; equal keys; repeated keys -/
+
+/-- `NoAdjWs` is a THEOREM about the parser models (all five regex formats, every text): the full walk never yields two
+    neighbouring Whitespace entries — `[ \t\r\n]+` / `\n+` are greedy repeats of a one-character step, so the expression
+    cannot match again where a match ended (`C15W.plus_stop`), and a Whitespace entry is only yielded where it matches. -/
+theorem walk_no_adjacent_whitespace (f : P.Fmt) (s : Array Nat) (es : List P.Entry) (ents : List Ent) (v : Nat)
+    (hw : P.walk f s = .done es) (he : toEnts f s v es.zipIdx = .ok ents) : NoAdjWs ents :=
+  C15W.walk_noAdjWs f s es ents v hw he
+
+/-- `merge_single` without ANY hypothesis about the walk: for every text `s` of every regex format (a DTD must not start
+    with a byte-order mark: the DTD walk drops it) the walk terminates with entries the merge accepts (C01 totality and
+    losslessness; PO: `PoEntity.key` re-evaluates a `createEntity` that succeeded), and if no `entity.key` occurs twice
+    among them, `merge_channels(name, [s]) == s`. -/
+theorem merge_single_total (f : P.Fmt) (s : Array Nat) (hb : f = .dtd → s[0]? ≠ some 0xFEFF) :
+    ∃ es ents, P.walk f s = .done es ∧ toEnts f s 0 es.zipIdx = .ok ents ∧
+      (NodupKeys ents → mergeTexts f [s] = .ok s.toList) := by
+  obtain ⟨es, ents, hw, he, hl⟩ := C15W.walk_total f s 0
+  exact ⟨es, ents, hw, he, fun hk => merge_single f s es ents hw he hk (hl hb)⟩
+
+/-- `merge_identical` without any hypothesis about the walk: … and if moreover no entry is Junk,
+    `merge_channels(name, [s] * (n+1)) == s`. -/
+theorem merge_identical_total (f : P.Fmt) (s : Array Nat) (n : Nat) (hb : f = .dtd → s[0]? ≠ some 0xFEFF) :
+    ∃ es ents, P.walk f s = .done es ∧ toEnts f s 0 es.zipIdx = .ok ents ∧
+      ((∀ e ∈ es, e.kind ≠ .junk) → NodupKeys ents → mergeTexts f (List.replicate (n + 1) s) = .ok s.toList) := by
+  obtain ⟨es, ents, hw, he, hl⟩ := C15W.walk_total f s 0
+  exact ⟨es, ents, hw, he, fun hj hk => merge_identical f s es ents n hw he hj hk (hl hb)⟩
+
+/-- ENTRIES WITH EQUAL KEYS COLLAPSE TO THE NEWEST.  The entry-level model takes the parser's entries WITH THEIR KEYS as
+    input (for Android: the sticky `DocumentWrapper` entries are keyed `<?xml?><resources>`, the ATTRIBUTE NAME of each root
+    attribute, `>`, `</resources>` — the harness checks this input contract on every generated version).  Whatever the
+    entries are: if an entry `e` of version `i` (no key twice in that version) and an entry `e'` of any other version carry
+    the same `entity.key`, and no version newer than `i` has that key, then the merged dict has that key exactly once
+    (`Nodup` + membership) and the single entry stored under it carries `e`'s text — `e'`'s text is not serialised.
+    For the Android wrappers: a root attribute present with different values in several channels appears ONCE, with the
+    newest value. -/
+theorem equal_keys_collapse (rs : List (List Ent)) (d : Dict) (h : mergeResources rs = some d)
+    (i j : Nat) (es es' : List Ent) (hi : rs[i]? = some es) (_hj : rs[j]? = some es') (hk : NodupKeys es)
+    (e e' : Ent) (he : e ∈ es) (_he' : e' ∈ es') (hkeyed : e.keyed = true) (_hkeyed' : e'.keyed = true)
+    (heq : e'.ekey = e.ekey)
+    (hfirst : ∀ j' < i, ∀ es'', rs[j']? = some es'' → ∀ x ∈ es'', x.keyed = true → x.ekey ≠ e.ekey) :
+    (keysOf d).Nodup ∧ Key.ent e.ekey ∈ keysOf d ∧ (dget d (Key.ent e'.ekey)).map (·.all) = some e.all := by
+  refine ⟨(merged_keys rs d h).1, ?_, ?_⟩
+  · exact (merged_entity_keys rs d h e.ekey).2 ⟨es, List.mem_of_getElem? hi, e, he, hkeyed, rfl⟩
+  · rw [heq]
+    exact newest_text rs d h i es hi hk e he hkeyed hfirst
+
+
+/-- STAND-ALONE COMMENTS (the duplicate-comment counter of `get_key_value`): the merge holds an `n`-th copy of the
+    stand-alone comment text `v` iff SOME version has at least `n` stand-alone comments with that text — so the number of
+    copies in the merge is the MAXIMUM over the versions (identical comments "at the same index" are de-duplicated, a version
+    with more copies contributes the surplus).  A comment ATTACHED to a string is part of `entity.all` and travels with the
+    string: with `newest_text`, the newest version's attached comment wins together with its value. -/
+theorem comment_copies (rs : List (List Ent)) (d : Dict) (h : mergeResources rs = some d) (v : List Nat) (n : Nat) :
+    Key.comment v n ∈ keysOf d ↔ ∃ es ∈ rs, 1 ≤ n ∧ n ≤ C15C.copies v es := by
+  have hmk := (merged_keys rs d h).2 (Key.comment v n)
+  have hwf : WF d := by
+    rw [mergeResources_eq] at h
+    have hst := stamped_versionDicts rs
+    cases hvd : versionDicts rs with
+    | nil => rw [hvd] at h; simp at h
+    | cons d0 ds =>
+      rw [hvd] at h hst
+      simp only [Option.some.injEq] at h
+      subst h
+      exact fold_wf ds 1 d0 hst.1 (verEq_lt 0 d0 hst.2.1) hst.2.2
+  have hnw : ∀ d' : Dict, WF d' → (Key.comment v n ∈ nwKeys d' ↔ Key.comment v n ∈ keysOf d') := by
+    intro d' hd'
+    rw [nwKeys_eq_filter d' hd', List.mem_filter]
+    simp [Key.isObj]
+  rw [← hnw d hwf, hmk]
+  constructor
+  · rintro ⟨i, es, hi, hk⟩
+    rw [hnw _ (versionDict_wf i es), C15C.versionDict_comment] at hk
+    exact ⟨es, List.mem_of_getElem? hi, hk⟩
+  · rintro ⟨es, hes, hk⟩
+    obtain ⟨i, hi, hget⟩ := List.mem_iff_getElem.1 hes
+    refine ⟨i, es, by rw [List.getElem?_eq_getElem hi, hget], ?_⟩
+    rw [hnw _ (versionDict_wf i es), C15C.versionDict_comment]
+    exact hk
+
+/-- A SINGLE VERSION WITH REPEATED KEYS (no `NodupKeys` hypothesis): `merge_channels(name, [s])` is the serialisation of
+    the dict `OrderedDict(pairs)`, whose keys are the FIRST occurrences of the `get_key_value` keys in file order and whose
+    value under an `entity.key` is the LAST entry of the file with that key: a repeated string is kept once, at the place
+    of its first occurrence, with the text of its last occurrence (`a=1 ⏎ a=2 ⏎` ⇒ `a=2 ⏎ ⏎`).  "Every string once" holds,
+    "a single version is returned unchanged" cannot (the input has the string twice): the two clauses of the property
+    contradict each other on such a file, which is why it is outside the property's domain and not a finding. -/
+theorem merge_single_dup (f : P.Fmt) (s : Array Nat) :
+    ∃ es ents, P.walk f s = .done es ∧ toEnts f s 0 es.zipIdx = .ok ents ∧
+      mergeTexts f [s] = .ok (serialize (versionDict 0 ents)) ∧
+      keysOf (versionDict 0 ents) = C15D.firstOcc [] ((pairs (stamp 0 ents) []).map (·.1)) ∧
+      (∀ ek, dget (versionDict 0 ents) (Key.ent ek) = C15D.lastEnt ek (stamp 0 ents)) := by
+  obtain ⟨es, ents, hw, he, _⟩ := C15W.walk_total f s 0
+  obtain ⟨h1, _, h3⟩ := C15D.versionDict_closed 0 ents
+  refine ⟨es, ents, hw, he, ?_, h1, h3⟩
+  have hwa : walkAll f [s].zipIdx = .ok [ents] := by simp [walkAll, walkEnts, hw, he]
+  rw [mergeTexts, hwa]
+  rfl
+
+/-- the same closed form at entry level, for any parser and any version number -/
+theorem version_dict_closed_form (v : Nat) (es : List Ent) :
+    keysOf (versionDict v es) = C15D.firstOcc [] ((pairs (stamp v es) []).map (·.1)) ∧
+    (∀ k, dget (versionDict v es) k = C15D.lastVal (pairs (stamp v es) []) k) ∧
+    (∀ ek, dget (versionDict v es) (Key.ent ek) = C15D.lastEnt ek (stamp v es)) :=
+  C15D.versionDict_closed v es
+
+/-- NO MISPLACEMENT THROUGH REPEATED KEYS.  `AddRemove` misplaces later keys when the right sequence repeats a right-only
+    key (C20: `left=[0,1]`, `right=[5,0,5,6]` yields 5, 6, 0, 1).  Inside `merge_channels` this cannot happen: at EVERY step
+    of `reduce(merge_two, …)` both key lists handed to `AddRemove` — the keys of the merge so far and the keys of the next
+    older version's dict — are duplicate-free, because `OrderedDict(pairs)` collapsed a repeated key when the version was
+    parsed; the diff therefore IS the duplicate-free closed form (`order_spec` needs no hypothesis on the versions). -/
+theorem diff_never_sees_duplicates (rs : List (List Ent)) (d0 : Dict) (ds : List Dict) (h : versionDicts rs = d0 :: ds)
+    (n : Nat) (dv : Dict) (hn : ds[n]? = some dv) :
+    (keysOf ((ds.take n).foldl mergeTwo d0)).Nodup ∧ (keysOf dv).Nodup ∧
+    addRemove (keysOf ((ds.take n).foldl mergeTwo d0)) (keysOf dv)
+      = spec (keysOf ((ds.take n).foldl mergeTwo d0)) (keysOf dv) :=
+  C15D.diff_inputs_nodup rs d0 ds h n dv hn
+
 /-- Unsupported file types are refused explicitly: when no pattern of `parser.__constructors` matches the
     file name, `merge_channels` raises MergeNotSupportedError whatever the resources are. -/
 theorem unsupported_refused (name : List Nat) (texts : List (Array Nat)) (h : getParserClass name = none) :
@@ -355,7 +555,7 @@ def sampleEnts : List Ent :=
 
 example : mergeTexts .properties [sampleText, sampleText, sampleText] = .ok sampleText.toList :=
   merge_identical .properties sampleText sampleEntries sampleEnts 2 (by decide) (by rfl) (by decide)
-    (by unfold NodupKeys; decide) (by simp [NoAdjWs, Ent.isWs, sampleEnts]) (by decide)
+    (by unfold NodupKeys; decide) (by decide)
 
 example : mergeTexts .properties [sampleText] = .ok sampleText.toList :=
   merge_single .properties sampleText sampleEntries sampleEnts (by decide) (by rfl)
@@ -390,6 +590,66 @@ example : (mergeTwo
     = [[63], [63]] := by
   rw [mergeTwo_eq _ _ (versionDict_wf _ _) (versionDict_wf _ _)]
   decide
+
+
+/-! ### Round 4: witnesses -/
+
+/-- a keyed entry as the entry-level model sees a sticky DocumentWrapper: (key, text) -/
+def sw (k txt : List Nat) : Ent := { kind := .entity, ekey := .str k, val := [], all := txt, oid := (0, 0) }
+
+/-- `equal_keys_collapse`, non-vacuity: wrappers `R`, attribute `a` (key = the attribute NAME `[2]`), `>`; the newest version
+    has the text `[50]` for the attribute, the older one `[51]` and one more attribute `[4]`: the merge keeps `[50]` once
+    and adds the older-only attribute after it -/
+example : (mergeTwo (versionDict 0 [sw [1] [1], sw [2] [50], sw [3] [3]])
+      (versionDict 1 [sw [1] [1], sw [2] [51], sw [4] [52], sw [3] [3]])).map (·.2.all) = [[1], [50], [52], [3]] := by
+  rw [mergeTwo_eq _ _ (versionDict_wf _ _) (versionDict_wf _ _)]
+  decide
+
+/-- NEGATION WITNESS for `heq` (equal keys) — the input contract "an attribute wrapper is keyed by the attribute name":
+    keyed by their literal TEXT (` a="1"` vs ` a="2"`, here `[50]` vs `[51]`) the two wrappers are different strings for
+    the merge and BOTH are serialised — the attribute twice, i.e. XML that is not well-formed -/
+example : (mergeTwo (versionDict 0 [sw [1] [1], sw [50] [50], sw [3] [3]])
+      (versionDict 1 [sw [1] [1], sw [51] [51], sw [3] [3]])).map (·.2.all) = [[1], [51], [50], [3]] := by
+  rw [mergeTwo_eq _ _ (versionDict_wf _ _) (versionDict_wf _ _)]
+  decide
+
+/-- `merge_single_total` / `merge_identical_total` applied (no hypothesis about the walk left; `NodupKeys` and junk-freeness
+    of the concrete entries are discharged by evaluation after identifying the entries with the walk) -/
+example : ∃ es ents, P.walk .properties sampleText = .done es ∧ toEnts .properties sampleText 0 es.zipIdx = .ok ents ∧
+    (NodupKeys ents → mergeTexts .properties [sampleText] = .ok sampleText.toList) :=
+  merge_single_total .properties sampleText (by intro h; cases h)
+
+/-- NEGATION WITNESS for the byte-order-mark hypothesis of `merge_single_total`: the DTD walk drops a leading U+FEFF,
+    so the single version `U+FEFF <!ENTITY a "1">` is returned without it -/
+example : (mergeTexts .dtd [#[0xFEFF, 60, 33, 69, 78, 84, 73, 84, 89, 32, 97, 32, 34, 49, 34, 62]]).toOption
+    = some [60, 33, 69, 78, 84, 73, 84, 89, 32, 97, 32, 34, 49, 34, 62] := by decide
+
+
+/-- `comment_copies` on an example: newest `# x ⏎⏎ a`, older `# x ⏎⏎ # x ⏎⏎ a`: the merge has the comment twice (the maximum),
+    not three times -/
+example : ((mergeTwo (versionDict 0 [c [35, 120], w [10, 10], e 1 [97]])
+      (versionDict 1 [c [35, 120], w [10, 10], c [35, 120], w [10, 10], e 1 [97]])).filter (fun p => p.2.kind == .comment)).length = 2 := by
+  rw [mergeTwo_eq _ _ (versionDict_wf _ _) (versionDict_wf _ _)]
+  decide
+
+/-- the `AddRemove` misplacement needs a REPEATED right-only key: `left=[0,1]`, `right=[5,0,5,6]` puts 6 before 0 … -/
+example : (addRemove [0, 1] [5, 0, 5, 6]).map (·.2) = [5, 6, 0, 1] := by
+  rw [C20P.addRemove_eq_specD]; decide
+
+/-- … but an older version with the repeated key `5` (entries 5 0 5 6) reaches `AddRemove` as the dict keys 5 0 6, and 6 is
+    placed after 0, the neighbour it followed (`diff_never_sees_duplicates`; newest version: 0 1) -/
+example : (mergeTwo (versionDict 0 [e 0 [48], e 1 [49]])
+      (versionDict 1 [e 5 [53], e 0 [79], e 5 [54], e 6 [55]])).map (·.2.all) = [[54], [48], [55], [49]] := by
+  rw [mergeTwo_eq _ _ (versionDict_wf _ _) (versionDict_wf _ _)]
+  decide
+
+/-- `merge_single_dup` / `version_dict_closed_form` on `a=1 ⏎ a=2 ⏎`: one key `a` at the first position, the LAST entry
+    under it -/
+example : keysOf (versionDict 0 [e 1 [97, 61, 49], w [10], e 1 [97, 61, 50], w [10]])
+      = [Key.ent (.str [1]), Key.obj 0 1, Key.obj 0 3] ∧
+    (dget (versionDict 0 [e 1 [97, 61, 49], w [10], e 1 [97, 61, 50], w [10]]) (Key.ent (.str [1]))).map (·.all)
+      = some [97, 61, 50] := by
+  constructor <;> decide
 
 /-! ### re-parse theorem: non-vacuity and negation witnesses -/
 
@@ -428,6 +688,61 @@ example :
       simp at hrs'
       subst hrs'
       decide)
+
+
+/-- `merge_reparses_dtd_partial`, non-vacuity: newest `<!ENTITY a "1">⏎`, older `<!ENTITY b.c "x y">⏎ <!ENTITY a "0">⏎` -/
+example :
+    ∃ (t : List Nat) (es : List P.Entry) (recs : List P.PRec),
+      mergeTexts .dtd ([[([97], [49])], [([98, 46, 99], [120, 32, 121]), ([97], [48])]].map (fun rs => (C02X.printDtd rs).toArray)) = .ok t ∧
+      t = C02X.printDtd recs ∧ P.walk .dtd t.toArray = .done es ∧
+      P.junkOf t.toArray es = [] ∧ (recs.map (·.1)).Nodup ∧ ([97], [49]) ∈ recs ∧ ([98, 46, 99], [120, 32, 121]) ∈ recs := by
+  obtain ⟨t, es, recs, h1, h2, h3, _, h5, h6, _, h8⟩ := merge_reparses_dtd_partial
+    [[([97], [49])], [([98, 46, 99], [120, 32, 121]), ([97], [48])]] (by simp)
+    (by
+      intro rs hrs r hr
+      simp at hrs
+      rcases hrs with rfl | rfl <;> simp at hr
+      · subst hr; constructor <;> simp <;> decide
+      · rcases hr with rfl | rfl <;> constructor <;> simp <;> decide)
+    (by intro rs hrs; simp at hrs; rcases hrs with rfl | rfl <;> decide)
+  refine ⟨t, es, recs, h1, h2, h3, h5, h6, ?_, ?_⟩
+  · exact h8 0 _ _ rfl (by simp) (by intro j hj; omega)
+  · exact h8 1 _ _ rfl (by simp) (by
+      intro j hj rs' hrs'
+      have : j = 0 := by omega
+      subst this
+      simp at hrs'
+      subst hrs'
+      decide)
+
+/-- `merge_reparses_inc_partial`, non-vacuity: newest `#define a 1⏎`, older `#define b⏎ #define a 0⏎` (`b` without value) -/
+example :
+    ∃ (t : List Nat) (es : List P.Entry) (recs : List P.PRec),
+      mergeTexts .inc ([[([97], [49])], [([98], []), ([97], [48])]].map (fun rs => (C02X.printInc rs).toArray)) = .ok t ∧
+      t = C02X.printInc recs ∧ P.walk .inc t.toArray = .done es ∧
+      P.junkOf t.toArray es = [] ∧ (recs.map (·.1)).Nodup ∧ ([97], [49]) ∈ recs ∧ ([98], []) ∈ recs := by
+  obtain ⟨t, es, recs, h1, h2, h3, _, h5, h6, _, h8⟩ := merge_reparses_inc_partial
+    [[([97], [49])], [([98], []), ([97], [48])]] (by simp)
+    (by
+      intro rs hrs r hr
+      simp at hrs
+      rcases hrs with rfl | rfl <;> simp at hr
+      · subst hr; constructor <;> simp <;> decide
+      · rcases hr with rfl | rfl <;> constructor <;> simp <;> decide)
+    (by intro rs hrs; simp at hrs; rcases hrs with rfl | rfl <;> decide)
+  refine ⟨t, es, recs, h1, h2, h3, h5, h6, ?_, ?_⟩
+  · exact h8 0 _ _ rfl (by simp) (by intro j hj; omega)
+  · exact h8 1 _ _ rfl (by simp) (by
+      intro j hj rs' hrs'
+      have : j = 0 := by omega
+      subst this
+      simp at hrs'
+      subst hrs'
+      decide)
+
+/-- why the STRICT shape is needed for .inc (and why `C16R.Alt` alone is not enough): a leading newline and a blank line
+    between two defines are Junk for `DefinesParser` outside `#filter emptyLines` -/
+example : (P.definesGetNext #[10, 35, 100, 101, 102, 105, 110, 101, 32, 97, 10] false 0).1.kind = .junk := by decide
 
 /-- NEGATION WITNESS for `vers ≠ []`: `reduce` of an empty sequence -/
 example : mergeTexts .properties [] = .error .emptySequence := rfl
